@@ -17,6 +17,9 @@ import (
 
 type myStruct struct{ A int }
 type myPtrStruct struct{ B int }
+
+// a comparable struct type whose field holds an uncomparable dynamic value: == on two of them panics
+type myIfaceStruct struct{ V interface{} }
 type myFuncStruct struct{ F func() }
 type mySlice []interface{}
 type myMap map[string]interface{}
@@ -72,6 +75,7 @@ var kinds = []kindT{
 	{"rune", func() interface{} { return 'x' }},
 	// a fresh pointer on every use: two occurrences are deeply equal but not identical
 	{"freshptr", func() interface{} { return &myPtrStruct{B: 9} }},
+	{"ifacestruct", func() interface{} { return myIfaceStruct{V: []int{1, 2}} }},
 }
 
 func kindIndex(name string) int {
@@ -96,6 +100,9 @@ func opaqueID(v interface{}) int {
 		return 0
 	}
 	t := reflect.TypeOf(v)
+	if _, ok := v.(myIfaceStruct); ok {
+		return kindIndex("ifacestruct") + 1
+	}
 	for i, k := range kinds {
 		w := k.make()
 		if reflect.TypeOf(w) != t {
